@@ -5,9 +5,9 @@ convenience accessors, coap-message views).  Used by Props/C07, C19.
 import CoapLite.Model.Request
 import CoapLite.Lemmas.Uint
 import CoapLite.Lemmas.CodecFwd
+import CoapLite.Lemmas.OptMapExtra
 import CoapLite.Props.C05
 import CoapLite.Props.C06
-
 namespace CoapLite.Lemmas
 open CoapLite Spec
 
@@ -17,38 +17,164 @@ def prepared (req : Packet) (rtBits : Nat) : Packet :=
                 code := .Response .Content, mid := req.header.mid },
     token := req.token, options := [], payload := [] }
 
+theorem typeBits_fin : ∀ b : Fin 256, ((0x30 &&& UInt8.ofNat b.val) >>> 4).toNat < 4 := by
+  decide +kernel
+
+theorem typeBits_lt (h : Header) : h.typeBits < 4 := by
+  have := typeBits_fin ⟨h.vtt.toNat, h.vtt.toNat_lt⟩
+  simpa [Header.typeBits] using this
+
+theorem tkl_fin : ∀ (k : Fin 16), ∀ rt ∈ [MessageType.Acknowledgement, MessageType.NonConfirmable],
+    (0xF0 &&& UInt8.ofNat (k.val % 256) = 0) ∧
+    UInt8.ofNat (k.val % 256) ||| (0xF0 &&& ((Header.default.setVersion 1).setType rt).vtt)
+      = UInt8.ofNat (64 + MessageType.toBits rt * 16 + k.val) := by
+  decide +kernel
+
+theorem tkl_hi_fin : ∀ (k : Fin 256), 16 ≤ k.val → 0xF0 &&& UInt8.ofNat (k.val % 256) ≠ 0 := by
+  decide +kernel
+
+theorem prepared_fin : ∀ (k : Fin 16), ∀ b ∈ [1, 2],
+    let h : Header := { vtt := UInt8.ofNat (64 + b * 16 + k.val), code := .Response .Content, mid := 0 }
+    h.getVersion = 1 ∧ h.typeBits = b ∧ h.getTkl.toNat = k.val := by
+  decide +kernel
+
+theorem new_aux (req : Packet) (ht : req.token.length ≤ 15) (rt : MessageType)
+    (hrt : rt ∈ [MessageType.Acknowledgement, MessageType.NonConfirmable]) :
+    (({ Packet.new with header := { ((Packet.new.header.setVersion 1).setType rt) with
+          code := .Response .Content, mid := req.header.mid } } : Packet).setToken req.token).map some
+      = .ok (some (prepared req (MessageType.toBits rt))) := by
+  have h := tkl_fin ⟨req.token.length, by omega⟩ rt hrt
+  simp only at h
+  unfold Packet.setToken Header.setTkl
+  simp only [h.1, ne_eq, not_true_eq_false, ↓reduceIte, Res.map]
+  simp only [Packet.new]
+  rw [h.2]
+  rfl
+
 theorem response_new_spec (req : Packet) (ht : req.token.length ≤ 15) :
     Response.new req = .ok
       (if req.header.typeBits = 0 then some (prepared req 2)
        else if req.header.typeBits = 1 then some (prepared req 1)
        else none) := by
-  sorry
+  have hlt := typeBits_lt req.header
+  unfold Response.new Header.getType
+  have : req.header.typeBits = 0 ∨ req.header.typeBits = 1 ∨ req.header.typeBits = 2 ∨ req.header.typeBits = 3 := by omega
+  rcases this with h | h | h | h <;> rw [h] <;> simp only [MessageType.ofBits?, responseTypeFor]
+  · exact new_aux req ht .Acknowledgement (by simp)
+  · exact new_aux req ht .NonConfirmable (by simp)
+  · rfl
+  · rfl
 
 theorem response_new_isSome_iff (req : Packet) (ht : req.token.length ≤ 15) :
     (∃ q, Response.new req = .ok (some q)) ↔
       (req.header.getType = .ok .Confirmable ∨ req.header.getType = .ok .NonConfirmable) := by
-  sorry
+  rw [response_new_spec req ht]
+  have hlt := typeBits_lt req.header
+  unfold Header.getType
+  have : req.header.typeBits = 0 ∨ req.header.typeBits = 1 ∨ req.header.typeBits = 2 ∨ req.header.typeBits = 3 := by omega
+  rcases this with h | h | h | h <;> rw [h] <;> simp [MessageType.ofBits?]
 
 theorem prepared_fields (req : Packet) (ht : req.token.length ≤ 15) (rtBits : Nat) (hr : rtBits = 1 ∨ rtBits = 2) :
     (prepared req rtBits).header.getVersion = 1 ∧
     (prepared req rtBits).header.typeBits = rtBits ∧
     (prepared req rtBits).header.getTkl.toNat = req.token.length ∧
     MessageClass.toU8 (prepared req rtBits).header.code = 0x45 := by
-  sorry
+  have h := prepared_fin ⟨req.token.length, by omega⟩ rtBits (by rcases hr with h | h <;> simp [h])
+  simp only at h
+  refine ⟨h.1, h.2.1, h.2.2, rfl⟩
 
 theorem response_new_long_token (req : Packet) (ht : 16 ≤ req.token.length % 256)
     (hc : req.header.typeBits ≤ 1) : Response.new req = .panic := by
-  sorry
+  have hk := tkl_hi_fin ⟨req.token.length % 256, by omega⟩ ht
+  simp only [Nat.mod_mod] at hk
+  have hset : ∀ p : Packet, (p.setToken req.token).map some = .panic := by
+    intro p
+    unfold Packet.setToken Header.setTkl
+    simp only [hk, ne_eq, not_false_eq_true, ↓reduceIte, Res.map]
+  unfold Response.new Header.getType
+  have : req.header.typeBits = 0 ∨ req.header.typeBits = 1 := by omega
+  rcases this with h | h <;> rw [h] <;> simp only [MessageType.ofBits?, responseTypeFor] <;> exact hset _
 
 theorem fromPacket_spec (p : Packet) (src : Nat) (ht : p.token.length ≤ 15) :
     ∃ r, Request.fromPacket p src = .ok r ∧ r.message = p ∧ r.source = some src ∧
       Response.new p = .ok r.response := by
-  sorry
+  unfold Request.fromPacket
+  rw [response_new_spec p ht]
+  exact ⟨_, rfl, rfl, rfl, rfl⟩
 
 theorem apply_fails (r : Request) (code : Option ResponseType) (msg : Bytes)
     (h : r.response = none ∨ code = none) :
     r.applyFromError code msg = .ok (r, false) := by
-  sorry
+  unfold Request.applyFromError
+  rcases h with h | h
+  · rw [h]
+  · rw [h]; cases r.response <;> rfl
+
+theorem method_of_non_request (r : Request) (h : ∀ m, r.message.header.code ≠ .Request m) :
+    r.getMethod = .UnKnown := by
+  unfold Request.getMethod getMethodTable
+  split <;> first | rfl | (exfalso; exact h _ (by assumption))
+
+theorem status_of_non_response (m : Packet) (h : ∀ s, m.header.code ≠ .Response s) :
+    ResponseM.getStatus m = .UnKnown := by
+  unfold ResponseM.getStatus getStatusTable
+  split
+  · exact absurd (by assumption) (h _)
+  · rfl
+
+/-! ### options -/
+
+theorem clearOption_get (p : Packet) (k k' : Nat) :
+    (p.clearOption k).getOption k' =
+      if k' = k then (p.getOption k).map (fun _ => []) else p.getOption k' := by
+  unfold Packet.clearOption Packet.getOption
+  exact OptMap.X.get_modify _ _ _ _
+
+theorem clearOption_sorted (p : Packet) (hs : p.options.Sorted) (k : Nat) :
+    (p.clearOption k).options.Sorted :=
+  (Codec.mutators_keep_sorted p hs k [] []).2.2.1
+
+theorem addOption_sorted (p : Packet) (hs : p.options.Sorted) (k : Nat) (v : Bytes) :
+    (p.addOption k v).options.Sorted :=
+  (Codec.mutators_keep_sorted p hs k v []).1
+
+/-- `clear_option(k)` followed by `add_option_as::<uint>(k, n)` -/
+theorem replaceUint_spec (p : Packet) (hs : p.options.Sorted) (k w n : Nat) (hn : n < 256 ^ w) :
+    ∃ q, (p.clearOption k).addOptionUint k w n = .ok q ∧
+      q.getOption k = some [minimalBE n] ∧
+      q.getFirstOptionUint k w = some (.ok n) ∧
+      (∀ m, m ≠ k → q.getOption m = p.getOption m) ∧
+      q.header = p.header ∧ q.token = p.token ∧ q.payload = p.payload := by
+  unfold Packet.addOptionUint
+  rw [optionFromUint_eq n w hn]
+  have hg : ((p.clearOption k).addOption k (minimalBE n)).getOption k = some [minimalBE n] := by
+    rw [Codec.addOption_get _ (clearOption_sorted p hs k), if_pos rfl, clearOption_get, if_pos rfl]
+    cases p.getOption k <;> rfl
+  refine ⟨_, rfl, hg, ?_, ?_, rfl, rfl, rfl⟩
+  · unfold Packet.getFirstOptionUint Packet.getFirstOption
+    unfold Packet.getOption at hg
+    rw [hg]
+    simp only [Option.map_some]
+    rw [optionToUint_eq, if_pos (minimalBE_length_le n w hn), beValue_minimalBE]
+  · intro m hm
+    rw [Codec.addOption_get _ (clearOption_sorted p hs k), if_neg hm, clearOption_get, if_neg hm]
+
+theorem content_format_roundtrip (p : Packet) (f : ContentFormat) (hs : p.options.Sorted) :
+    ∃ q, p.setContentFormat f = .ok q ∧ q.getContentFormat = some f ∧
+      q.getOption (CoapOption.toU16 .ContentFormat) = some [minimalBE f.toUsize] ∧
+      (∀ n, n ≠ CoapOption.toU16 .ContentFormat → q.getOption n = p.getOption n) ∧
+      q.header = p.header ∧ q.token = p.token ∧ q.payload = p.payload := by
+  have hf := C05.cf_fits_u16 f
+  obtain ⟨q, h1, h2, h3, h4, h5, h6, h7⟩ :=
+    replaceUint_spec p hs (CoapOption.toU16 .ContentFormat) 2 f.toUsize (by simpa using hf)
+  refine ⟨q, ?_, ?_, h2, h4, h5, h6, h7⟩
+  · unfold Packet.setContentFormat
+    have : ¬ f.toUsize > 65535 := by omega
+    simp only [this, ↓reduceIte]
+    exact h1
+  · unfold Packet.getContentFormat
+    rw [h3]
+    exact C05.cf_name_num_name f
 
 theorem apply_spec (r : Request) (reply : Packet) (c : ResponseType) (msg : Bytes)
     (hr : r.response = some reply) (hs : reply.options.Sorted) :
@@ -59,15 +185,69 @@ theorem apply_spec (r : Request) (reply : Packet) (c : ResponseType) (msg : Byte
       m'.getOption (CoapOption.toU16 .ContentFormat) = some [[]] ∧
       m'.getContentFormat = some .TextPlain ∧
       (∀ n, n ≠ CoapOption.toU16 .ContentFormat → m'.getOption n = reply.getOption n) := by
-  sorry
+  obtain ⟨q, h1, h2, h3, h4, h5, h6, h7⟩ :=
+    content_format_roundtrip { reply with header := { reply.header with code := .Response c } }
+      .TextPlain hs
+  have hz : minimalBE (ContentFormat.toUsize .TextPlain) = [] := minimalBE_zero
+  rw [hz] at h3
+  unfold Request.applyFromError
+  rw [hr]
+  simp only [h1]
+  refine ⟨_, _, rfl, rfl, rfl, rfl, ?_, ?_, h6, ?_, rfl, h3, ?_, h4⟩
+  · simp only [h5]
+  · simp only [h5]
+  · simp only [h5]
+  · unfold Packet.getContentFormat Packet.getFirstOptionUint Packet.getFirstOption at h2 ⊢
+    exact h2
 
-theorem method_of_non_request (r : Request) (h : ∀ m, r.message.header.code ≠ .Request m) :
-    r.getMethod = .UnKnown := by
-  sorry
+theorem content_format_unnamed (p : Packet) (v : Bytes) (rest : List Bytes)
+    (h : p.getOption (CoapOption.toU16 .ContentFormat) = some (v :: rest))
+    (hn : v.length > 2 ∨ ContentFormat.ofUsize? (beValue v) = none) :
+    p.getContentFormat = none := by
+  unfold Packet.getOption at h
+  unfold Packet.getContentFormat Packet.getFirstOptionUint Packet.getFirstOption
+  rw [h]
+  simp only [Option.map_some, optionToUint_eq]
+  by_cases hl : v.length ≤ 2
+  · rw [if_pos hl]
+    rcases hn with hn | hn
+    · omega
+    · exact hn
+  · rw [if_neg hl]
 
-theorem status_of_non_response (m : Packet) (h : ∀ s, m.header.code ≠ .Response s) :
-    ResponseM.getStatus m = .UnKnown := by
-  sorry
+theorem observe_flag_roundtrip (r : Request) (f : ObserveOption) (hs : r.message.options.Sorted) :
+    ∃ r', r.setObserveFlag f = .ok r' ∧ r'.getObserveFlag = some (.ok f) ∧
+      r'.message.getOption (CoapOption.toU16 .Observe) = some [minimalBE f.toUsize] := by
+  have hf : f.toUsize < 256 ^ 4 := by cases f <;> decide
+  obtain ⟨q, h1, h2, h3, -⟩ :=
+    replaceUint_spec r.message hs (CoapOption.toU16 .Observe) 4 f.toUsize hf
+  refine ⟨{ r with message := q }, ?_, ?_, h2⟩
+  · unfold Request.setObserveFlag Packet.setObserveValue
+    rw [h1]; rfl
+  · unfold Request.getObserveFlag Packet.getObserveValue
+    simp only [h3, C05.obs_name_num_name]
+
+theorem observe_flag_garbage (r : Request) :
+    (r.message.getOption (CoapOption.toU16 .Observe) = none → r.getObserveFlag = none) ∧
+    (∀ v rest, r.message.getOption (CoapOption.toU16 .Observe) = some (v :: rest) →
+        (v.length > 4 ∨ beValue v ≥ 2) → r.getObserveFlag = some (.err .other)) := by
+  unfold Request.getObserveFlag Packet.getObserveValue Packet.getFirstOptionUint
+    Packet.getFirstOption Packet.getOption
+  constructor
+  · intro h; rw [h]; rfl
+  · intro v rest h hv
+    rw [h]
+    simp only [Option.map_some, optionToUint_eq]
+    by_cases hl : v.length ≤ 4
+    · rw [if_pos hl]
+      have hb : beValue v ≥ 2 := by rcases hv with hv | hv <;> omega
+      have : ObserveOption.ofUsize? (beValue v) = none := by
+        unfold ObserveOption.ofUsize?
+        split <;> first | omega | rfl
+      simp only [this]
+    · rw [if_neg hl]
+
+/-! ### URI path -/
 
 def stripLead : List Char → List Char
   | '/' :: t => t
@@ -78,8 +258,108 @@ def segments (cs : List Char) : List (List Char) :=
   | [] :: rest => rest
   | s => s
 
+theorem splitSlash_ne_nil (cs : List Char) : Request.splitSlash cs ≠ [] := by
+  cases cs with
+  | nil => simp [Request.splitSlash]
+  | cons c cs =>
+    unfold Request.splitSlash
+    split
+    · simp
+    · split <;> simp
+
+theorem splitSlash_cons (c : Char) (cs : List Char) :
+    ∃ hd tl, Request.splitSlash cs = hd :: tl ∧
+      Request.splitSlash (c :: cs) = if c = '/' then [] :: hd :: tl else (c :: hd) :: tl := by
+  cases h : Request.splitSlash cs with
+  | nil => exact absurd h (splitSlash_ne_nil cs)
+  | cons hd tl =>
+    refine ⟨hd, tl, rfl, ?_⟩
+    conv => lhs; unfold Request.splitSlash
+    simp only [h]
+
+theorem intercalate_cons_cons' (sep : List Char) (c : Char) (hd : List Char) (tl : List (List Char)) :
+    List.intercalate sep ((c :: hd) :: tl) = c :: List.intercalate sep (hd :: tl) := by
+  cases tl with
+  | nil => simp [List.intercalate_singleton]
+  | cons y t => simp [List.intercalate_cons_cons]
+
+theorem intercalate_splitSlash (cs : List Char) :
+    List.intercalate ['/'] (Request.splitSlash cs) = cs := by
+  induction cs with
+  | nil => simp [Request.splitSlash, List.intercalate_singleton]
+  | cons c cs ih =>
+    obtain ⟨hd, tl, h1, h2⟩ := splitSlash_cons c cs
+    rw [h2]
+    rw [h1] at ih
+    by_cases hc : c = '/'
+    · subst hc
+      simp only [↓reduceIte]
+      rw [List.intercalate_cons_cons, ih]; rfl
+    · simp only [hc, ↓reduceIte]
+      rw [intercalate_cons_cons', ih]
+
 theorem segments_join (cs : List Char) : List.intercalate ['/'] (segments cs) = stripLead cs := by
-  sorry
+  cases cs with
+  | nil => simp [segments, Request.splitSlash, stripLead]
+  | cons c cs =>
+    obtain ⟨hd, tl, h1, h2⟩ := splitSlash_cons c cs
+    unfold segments
+    rw [h2]
+    by_cases hc : c = '/'
+    · subst hc
+      simp only [↓reduceIte, stripLead]
+      rw [← h1]; exact intercalate_splitSlash cs
+    · simp only [hc, ↓reduceIte]
+      have hs : stripLead (c :: cs) = c :: cs := by
+        unfold stripLead
+        split
+        · simp_all
+        · rfl
+      rw [hs, intercalate_cons_cons', ← h1, intercalate_splitSlash]
+
+
+theorem foldl_add_spec (k : Nat) (f : List Char → Bytes) (segs : List (List Char)) (m0 : Packet)
+    (hs : m0.options.Sorted) :
+    let m := segs.foldl (fun m s => m.addOption k (f s)) m0
+    m.options.Sorted ∧
+    m.getOption k = (if segs = [] then m0.getOption k
+                     else some ((m0.getOption k).getD [] ++ segs.map f)) ∧
+    (∀ n, n ≠ k → m.getOption n = m0.getOption n) := by
+  induction segs generalizing m0 with
+  | nil => simp [hs]
+  | cons s segs ih =>
+    have hs1 := addOption_sorted m0 hs k (f s)
+    have ih' := ih (m0.addOption k (f s)) hs1
+    simp only [List.foldl_cons] at ih' ⊢
+    refine ⟨ih'.1, ?_, ?_⟩
+    · rw [ih'.2.1, Codec.addOption_get m0 hs, if_pos rfl]
+      by_cases hn : segs = []
+      · subst hn; simp
+      · simp [hn]
+    · intro n hn
+      rw [ih'.2.2 n hn, Codec.addOption_get m0 hs, if_neg hn]
+
+theorem filterMap_dec (g : Bytes → Option (List Char))
+    (hg : ∀ s, g (strEnc (String.ofList s)) = some s) (l : List (List Char)) :
+    (l.map (fun s => strEnc (String.ofList s))).filterMap g = l := by
+  induction l with
+  | nil => rfl
+  | cons a l ih =>
+    simp only [List.map_cons, List.filterMap_cons, hg, ih]
+
+theorem foldr_dec (l : List (List Char)) :
+    ((l.map (fun s => strEnc (String.ofList s))).map strDec).foldr
+      (fun x acc => match x, acc with
+        | .ok s, .ok ss => .ok (s :: ss)
+        | .err e, _ => .err e
+        | .panic, _ => .panic
+        | .ok _, .err e => .err e
+        | .ok _, .panic => .panic) (Res.ok []) = Res.ok (l.map String.ofList) := by
+  induction l with
+  | nil => rfl
+  | cons a l ih =>
+    simp only [List.map_cons, List.foldr_cons, C06.str_roundtrip]
+    rw [ih]
 
 theorem path_roundtrip (r : Request) (cs : List Char) (hs : r.message.options.Sorted) :
     (r.setPath cs).getPath = stripLead cs ∧
@@ -87,35 +367,80 @@ theorem path_roundtrip (r : Request) (cs : List Char) (hs : r.message.options.So
     ((r.setPath cs).message.getOption Request.uriPath).getD [] =
       (segments cs).map (fun s => strEnc (String.ofList s)) ∧
     (∀ n, n ≠ Request.uriPath → (r.setPath cs).message.getOption n = r.message.getOption n) := by
-  sorry
+  have hmsg : (r.setPath cs).message =
+      (segments cs).foldl (fun m s => m.addOption Request.uriPath (strEnc (String.ofList s)))
+        (r.message.clearOption Request.uriPath) := rfl
+  obtain ⟨-, hget, hoth⟩ := foldl_add_spec Request.uriPath (fun s => strEnc (String.ofList s))
+    (segments cs) _ (clearOption_sorted r.message hs Request.uriPath)
+  rw [← hmsg] at hget hoth
+  rw [clearOption_get, if_pos rfl] at hget
+  -- the stored option: `some (encoded segments)`, or absent/empty when there are none
+  have hval : (r.setPath cs).message.getOption Request.uriPath =
+        some ((segments cs).map (fun s => strEnc (String.ofList s))) ∨
+      ((r.setPath cs).message.getOption Request.uriPath = none ∧ segments cs = []) := by
+    by_cases hn : segments cs = []
+    · rw [hn] at hget ⊢
+      simp only [↓reduceIte] at hget
+      cases h : r.message.getOption Request.uriPath with
+      | none => right; rw [hget, h]; exact ⟨rfl, rfl⟩
+      | some l => left; rw [hget, h]; rfl
+    · left
+      rw [hget, if_neg hn]
+      cases h : r.message.getOption Request.uriPath <;> simp
+  refine ⟨?_, ?_, ?_, ?_⟩
+  · rw [← segments_join]
+    unfold Request.getPath
+    rcases hval with h | ⟨h, hn⟩
+    · rw [h]
+      simp only
+      rw [filterMap_dec]
+      intro s
+      simp only [C06.str_roundtrip, String.toList_ofList]
+    · rw [h, hn]; rfl
+  · unfold Request.getPathAsVec Packet.getOptionsStr
+    rcases hval with h | ⟨h, hn⟩
+    · rw [h]; simp only [Option.map_some]; exact foldr_dec _
+    · rw [h, hn]; rfl
+  · rcases hval with h | ⟨h, hn⟩
+    · rw [h]; rfl
+    · rw [h, hn]; rfl
+  · intro n hn
+    rw [hoth n hn, clearOption_get, if_neg hn]
 
-theorem content_format_roundtrip (p : Packet) (f : ContentFormat) (hs : p.options.Sorted) :
-    ∃ q, p.setContentFormat f = .ok q ∧ q.getContentFormat = some f ∧
-      q.getOption (CoapOption.toU16 .ContentFormat) = some [minimalBE f.toUsize] ∧
-      (∀ n, n ≠ CoapOption.toU16 .ContentFormat → q.getOption n = p.getOption n) ∧
-      q.header = p.header ∧ q.token = p.token ∧ q.payload = p.payload := by
-  sorry
-
-theorem content_format_unnamed (p : Packet) (v : Bytes) (rest : List Bytes)
-    (h : p.getOption (CoapOption.toU16 .ContentFormat) = some (v :: rest))
-    (hn : v.length > 2 ∨ ContentFormat.ofUsize? (beValue v) = none) :
-    p.getContentFormat = none := by
-  sorry
-
-theorem observe_flag_roundtrip (r : Request) (f : ObserveOption) (hs : r.message.options.Sorted) :
-    ∃ r', r.setObserveFlag f = .ok r' ∧ r'.getObserveFlag = some (.ok f) ∧
-      r'.message.getOption (CoapOption.toU16 .Observe) = some [minimalBE f.toUsize] := by
-  sorry
-
-theorem observe_flag_garbage (r : Request) :
-    (r.message.getOption (CoapOption.toU16 .Observe) = none → r.getObserveFlag = none) ∧
-    (∀ v rest, r.message.getOption (CoapOption.toU16 .Observe) = some (v :: rest) →
-        (v.length > 4 ∨ beValue v ≥ 2) → r.getObserveFlag = some (.err .other)) := by
-  sorry
+/-! ### coap-message views -/
 
 theorem view_options_sorted (p : Packet) (hs : p.options.Sorted) :
-    MsgView.options p = p.options.flatten ∧ ((MsgView.options p).map (·.1)).Pairwise (· ≤ ·) := by
-  sorry
+    MsgView.options p = p.options.flatten ∧ ((MsgView.options p).map (·.1)).Pairwise (· ≤ ·) :=
+  ⟨rfl, OptMap.X.flatten_keys_pairwise p.options hs⟩
+
+theorem viewAdd_eq (p : Packet) (n : Nat) (v : Bytes) : MsgView.addOption p n v = p.addOption n v := by
+  unfold MsgView.addOption
+  rw [C05.opt_num_name_num]
+
+/-- replaying a non-decreasing option list onto a sorted map whose keys are all
+below it appends to the flattened view -/
+theorem foldl_viewAdd (l : List (Nat × Bytes)) (hl : (l.map (·.1)).Pairwise (· ≤ ·))
+    (d : Packet) (hs : d.options.Sorted) (hd : ∀ kv ∈ d.options, ∀ x ∈ l, kv.1 ≤ x.1) :
+    let d' := l.foldl (fun d o => MsgView.addOption d o.1 o.2) d
+    d'.options.flatten = d.options.flatten ++ l ∧ d'.options.Sorted ∧
+    d'.header = d.header ∧ d'.token = d.token ∧ d'.payload = d.payload := by
+  induction l generalizing d with
+  | nil => simp [hs]
+  | cons o l ih =>
+    obtain ⟨n, v⟩ := o
+    simp only [List.map_cons, List.pairwise_cons] at hl
+    have hadd := OptMap.X.add_last d.options hs n v (fun kv hkv => hd kv hkv (n, v) (by simp))
+    have hs1 := addOption_sorted d hs n v
+    have ih' := ih hl.2 (d.addOption n v) hs1 (by
+      intro kv hkv x hx
+      have h1 := hadd.2 kv hkv
+      have h2 := hl.1 x.1 (List.mem_map.2 ⟨x, hx, rfl⟩)
+      omega)
+    simp only [List.foldl_cons, viewAdd_eq] at ih' ⊢
+    refine ⟨?_, ih'.2.1, ih'.2.2.1, ih'.2.2.2.1, ih'.2.2.2.2⟩
+    rw [ih'.1]
+    show (d.options.add n v).flatten ++ l = _
+    rw [hadd.1, List.append_assoc]; rfl
 
 theorem copy_via_trait (src : Packet) (hs : src.options.Sorted)
     (hk : ∀ kv ∈ src.options, kv.1 ≤ 65535) :
@@ -123,6 +448,20 @@ theorem copy_via_trait (src : Packet) (hs : src.options.Sorted)
     MessageClass.toU8 (MsgView.code d) = MessageClass.toU8 (MsgView.code src) ∧
     MsgView.options d = MsgView.options src ∧ MsgView.payload d = MsgView.payload src ∧
     d.options.Sorted := by
-  sorry
+  have _ := hk
+  have h := foldl_viewAdd (MsgView.options src) (view_options_sorted src hs).2
+    (MsgView.setCode Packet.new (MessageClass.ofU8 (MessageClass.toU8 (MsgView.code src))))
+    OptMap.X.sorted_nil (by intro kv hkv; simp [MsgView.setCode, Packet.new] at hkv)
+  simp only at h
+  obtain ⟨h1, h2, h3, -, -⟩ := h
+  refine ⟨?_, ?_, rfl, h2⟩
+  · show MessageClass.toU8 (MsgView.setFromMessage Packet.new src).header.code = _
+    unfold MsgView.setFromMessage
+    simp only [MsgView.setPayload, h3]
+    simp only [MsgView.setCode, MsgView.code, C05.code_num_name_num]
+  · show (MsgView.setFromMessage Packet.new src).options.flatten = _
+    unfold MsgView.setFromMessage
+    simp only [MsgView.setPayload, h1]
+    simp [MsgView.setCode, Packet.new, OptMap.flatten]
 
 end CoapLite.Lemmas
